@@ -28,7 +28,7 @@ from lib.core import Ctx, REPO
 
 ID = "C01"
 NEEDS_GEN = True
-LEAN_TARGETS = ["AiuVerif.Props.C01", "AiuVerif.Props.C01Args"]
+LEAN_TARGETS = ["AiuVerif.Props.C01", "AiuVerif.Props.C01Args", "AiuVerif.Props.C01Bw", "AiuVerif.Props.C01Stages"]
 THEOREMS = [
     "AiuVerif.C01.pipeline_conserves",
     "AiuVerif.C01.exported_once",
@@ -52,6 +52,28 @@ THEOREMS = [
     "AiuVerif.C01.unknown_top_entry_exported",
     "AiuVerif.C01.args_entry_exported",
     "AiuVerif.C01.exported_entry_has_source",
+    # the bandwidth stage of the default counter set (mp_calc_bw, Model/CalcBw.lean): hold-all, nothing lost at drain
+    "AiuVerif.C01.bw_step_holds",
+    "AiuVerif.C01.bw_counters_synth",
+    "AiuVerif.C01.bw_drain_shape",
+    "AiuVerif.C01.bw_conserves",
+    "AiuVerif.C01.bw_conserves_perm",
+    "AiuVerif.C01.bw_error_only_zerodiv",
+    "AiuVerif.C01.bw_no_bytes_total",
+    # map_tid_to_range, drop_global_events, processing_filter (Model/SmallStages.lean)
+    "AiuVerif.C01.lookup_injective",
+    "AiuVerif.C01.mapAll_spec",
+    "AiuVerif.C01.tidmap_pass",
+    "AiuVerif.C01.tidmap_lanes",
+    "AiuVerif.C01.tidmap_total",
+    "AiuVerif.C01.registered_tid_ctx_ok",
+    "AiuVerif.C01.registered_tid_ctx_inv",
+    "AiuVerif.C01.init_inv",
+    "AiuVerif.C01.dropGlobals_spec",
+    "AiuVerif.C01.dropGlobals_sublist",
+    "AiuVerif.C01.glb_names_documented",
+    "AiuVerif.C01.pfilter_spec",
+    "AiuVerif.C01.pfilter_sublist",
 ]
 RULE = ("random rich scenarios (gen/rich.py: 1..4 ranks, chain all-reduce groups, kernels, host slices as X and B/E, ties, "
         "nesting, staggered partial overlaps up to the 5-extra-lane budget, zero/negative durations, 1/16 us device slices, "
@@ -65,7 +87,10 @@ ASSUMPTIONS = ["-O drop removals and --comm_summarize_seq merges are judged by t
                "switches outside the claimed domain (-S -s -R --flex_ts_fix -O async/shift/warn, bandwidth counter) are not generated"]
 NOT_YET_PROVED = ["class_conserves for the stages WITHOUT a Lean model (observed on the real -I streams of every run instead); proved for "
                   "sort_events, pipeline_barrier, the overlap sub-pipeline (-O tid / -O drop), queueing_counter, normalize_phase1 and "
-                  "communication_event_apply via the models of C08, C03, C04, C13, C17, C20",
+                  "communication_event_apply via the models of C08, C03, C04, C13, C17, C20, and for mp_calc_bw (bandwidth stage: "
+                  "bw_conserves, bw_no_bytes_total), map_tid_to_range (tidmap_pass, tidmap_lanes), drop_global_events "
+                  "(dropGlobals_spec) and processing_filter (pfilter_spec) via Model/CalcBw.lean and Model/SmallStages.lean, each "
+                  "compared with the real callback + the context object the CLI registers",
                   "user argument keys: proved for the export step (C01Args: unknown_top_entry_exported, args_entry_exported, "
                   "exported_entry_has_source over Model/ExportArgs.lean, compared with the real convert_events + event classes); "
                   "that the STAGES in front of the export leave the args entries of a slice alone is decided by the end-to-end "
@@ -338,6 +363,249 @@ def export_args_correspondence(ctx):
                     {"event": ev}, model, real)
 
 
+def small_stages_correspondence(ctx):
+    """Model/CalcBw.lean and Model/SmallStages.lean vs the real callbacks with the context objects the CLI registers
+    (`mp_calc_bw`, `map_tid_to_range`, `drop_global_events`, `processing_filter`), each run through a real
+    EventProcessor.  Compared: which events leave (by uid, in order), the synthesized counters (name, pid, ts exact;
+    value = some rounding of the model's exact quotient to 3 decimals), the new tids and the context's two lists, the
+    exception class."""
+    import copy as _copy
+    import contextlib as _cl
+    import io as _io
+    from fractions import Fraction
+    from lib.core import enc, rat
+    rng = ctx.rng
+    reg = {r["name"]: r for r in stage.cli_stages(["--drop_globals", "-F", "XC"]) if r["registered"]}
+    lines, pend = [], []
+
+    # ---- mp_calc_bw ------------------------------------------------------------------------------------------
+    bw = reg.get("mp_calc_bw")
+    names = ["k Cmpt Exec", "AllReduce SenRdmaSend", "AllReduce SenRdmaRecv", "x SenRdmaSend and SenRdmaRecv", "host work",
+             "q Cmpt Prep"]
+    groups = [None, None, "AllReduce_all_reduce_1", "AllReduce_all_reduce_2", "AllGather_3", "Other_4"]
+
+    def bw_event(uid, ph=None, **kw):
+        e = {"ph": ph or rng.choice(["X"] * 8 + ["b", "C", "M", "i"]), "pid": rng.randint(0, 2), "tid": 0,
+             "ts": rng.randint(0, 40) / 4, "name": rng.choice(names)}
+        if e["ph"] in ("X", "b"):
+            e["dur"] = rng.randint(1, 16) / 4
+        if rng.random() < 0.9:
+            e["args"] = {"uid": uid}
+            g = rng.choice(groups)
+            if g is not None:
+                e["args"]["CollGroup"] = g
+            if rng.random() < 0.4:
+                e["args"]["Bytes"] = rng.choice([8, 4096, "1024", 1000000])
+        e.update(kw)
+        if "args" in e:
+            e["args"]["uid"] = uid
+        else:
+            e["uid_top"] = uid
+        return e
+
+    def bw_window(uid0):
+        """a complete all-reduce window: a slice in front, sends with Bytes, receives, a closing kernel"""
+        R = rng.randint(1, 3)
+        t = rng.randint(0, 8) / 4
+        evs = [{"ph": "X", "pid": 0, "tid": 0, "ts": t, "dur": 0.5, "name": "k Cmpt Exec", "args": {}}] if rng.random() < 0.8 else []
+        t += rng.choice([0.5, 1.0, 1.0])
+        g = f"AllReduce_all_reduce_{rng.randint(1, 9)}"
+        for r in range(R):
+            evs.append({"ph": "X", "pid": r, "tid": 1, "ts": t + r / 4, "dur": 1.0, "name": "AllReduce SenRdmaSend",
+                        "args": {"CollGroup": g, **({"Bytes": rng.choice([4096, "65536", 1000])} if rng.random() < 0.85 else {})}})
+            for _ in range(rng.randint(0, 2)):
+                evs.append({"ph": "X", "pid": r, "tid": 2, "ts": t + rng.randint(0, 8) / 4, "dur": rng.randint(1, 8) / 4,
+                            "name": "AllReduce SenRdmaRecv", "args": {"CollGroup": g}})
+        tail = max(e["ts"] + e["dur"] for e in evs) + rng.choice([0.0, 0.25, 1.0])
+        if rng.random() < 0.3:
+            evs.append({"ph": "X", "pid": 0, "tid": 1, "ts": tail, "dur": 0.5, "name": "gather SenRdmaSend",
+                        "args": {"CollGroup": "AllGather_1"}})
+        evs.append({"ph": "X", "pid": rng.randint(0, R - 1), "tid": 0, "ts": tail, "dur": rng.choice([0.25, 0.5]),
+                    "name": "k Cmpt Exec", "args": {}})
+        for i, e in enumerate(evs):
+            e["args"]["uid"] = uid0 + i
+        return evs
+
+    def bw_line(evs):
+        toks = []
+        for e in evs:
+            a = e.get("args")
+            uid = a["uid"] if a is not None else e["uid_top"]
+            cg = "-" if a is None or "CollGroup" not in a else enc(a["CollGroup"])
+            by = "-" if a is None or "Bytes" not in a else str(int(a["Bytes"]))
+            toks.append(",".join([str(uid), enc(e["ph"]), str(e["pid"]), rat(e["ts"]), rat(e.get("dur", 0)),
+                                  "1" if a is not None else "0", cg, by, enc(e["name"])]))
+        return "c01 bw " + (";".join(toks) or "%")
+
+    if bw is not None:
+        for k in range(ctx.n(400, 4000)):
+            kind = k % 4
+            if kind == 0:
+                evs = [bw_event(i) for i in range(rng.randint(0, 8))]
+            elif kind == 1:
+                evs = bw_window(0)
+                if rng.random() < 0.5:
+                    rng.shuffle(evs)
+            elif kind == 2:
+                evs = bw_window(0)
+                evs += bw_window(len(evs)) if rng.random() < 0.6 else [bw_event(len(evs) + i) for i in range(3)]
+                for i, e in enumerate(evs):
+                    (e["args"] if "args" in e else e)["uid" if "args" in e else "uid_top"] = i
+            else:
+                # the degenerate windows: first slice of the stream opens the window (L[i-1] is the LAST end), empty window
+                evs = [{"ph": "X", "pid": 0, "tid": 0, "ts": 0.0, "dur": 2.0, "name": "x SenRdmaSend and SenRdmaRecv",
+                        "args": {"uid": 0, "CollGroup": "AllReduce_all_reduce_1", "Bytes": 8}},
+                       {"ph": "X", "pid": 0, "tid": 0, "ts": rng.choice([0.0, 1.0]), "dur": rng.choice([2.0, 1.0, 3.0]),
+                        "name": "k Cmpt Exec", "args": {"uid": 1}}]
+            lines.append(bw_line(evs))
+            pend.append(("bw", evs))
+
+    # ---- map_tid_to_range ------------------------------------------------------------------------------------
+    from aiu_trace_analyzer.types import GlobalIngestData, InputDialectFLEX, InputDialectTORCH
+    g = GlobalIngestData()
+    before = dict(GlobalIngestData._jobmap)
+    jf = g.add_job_info("/aiuverif/c01/small_flex.json", InputDialectFLEX())
+    jt = g.add_job_info("/aiuverif/c01/small_torch_x.json", InputDialectTORCH())
+    if jt == jf:
+        jt = g.add_job_info("/aiuverif/c01/small_torch_y.json", InputDialectTORCH())
+    junk = next(h for h in range(10000, 20000) if h not in GlobalIngestData._jobmap)
+    tm = reg.get("map_tid_to_range")
+
+    def tid_events():
+        pool = rng.sample(range(0, 4000), rng.choice([2, 5, 33, 40, 40]))
+        evs = []
+        for i in range(rng.randint(0 if rng.random() < 0.3 else 2 * len(pool), 3 * len(pool))):
+            e = {"ph": rng.choice(["X"] * 6 + ["C", "M"]), "pid": rng.randint(0, 2), "ts": float(i), "dur": 1.0, "name": "n",
+                 "args": {"uid": i}}
+            if rng.random() < 0.93:
+                e["tid"] = rng.choice(pool)
+            r = rng.random()
+            if r < 0.8:
+                e["args"]["jobhash"] = jf
+            elif r < 0.88:
+                e["args"]["jobhash"] = jt
+            elif r < 0.94:
+                e["args"]["jobhash"] = junk
+            evs.append(e)
+        return evs
+
+    def tid_line(head, evs):
+        toks = []
+        for e in evs:
+            jh = e["args"].get("jobhash")
+            toks.append(",".join([str(e["args"]["uid"]), "1" if e["ph"] == "X" else "0", str(e["tid"]) if "tid" in e else "-",
+                                  "1" if jh == jf else "0", str(e["pid"])]))
+        return head + " " + (";".join(toks) or "%")
+
+    if tm is not None:
+        for k in range(ctx.n(150, 1500)):
+            evs = tid_events()
+            if k % 3 == 0:
+                size, start, step = rng.choice([0, 1, 2, 30]), rng.choice([0, 1000, -5]), rng.choice([100, 1, -3])
+                lines.append(tid_line(f"c01 tidmap0 {size} {start} {step}", evs))
+                pend.append(("tid", evs, type(tm["context"])(size, start, step)))
+            else:
+                lines.append(tid_line("c01 tidmap", evs))
+                pend.append(("tid", evs, _copy.deepcopy(tm["context"])))
+
+    # ---- drop_global_events / processing_filter ----------------------------------------------------------------
+    parts = _glb_names_from_source() + ["execute graph", "Execute  graph", "Callbac", "k Cmpt Exec", "Update CB", "Flex", ""]
+    dg = reg.get("drop_global_events")
+    if dg is not None:
+        for _ in range(ctx.n(40, 400)):
+            nm = []
+            for _i in range(rng.randint(1, 12)):
+                a, b_ = rng.choice(parts), rng.choice(parts)
+                nm.append(rng.choice([a, a + " 17", "pre " + a, a[:-1], a + b_, a[1:], "kernel_" + str(rng.randint(0, 9))]) or "x")
+            lines.append("c01 dropg " + ";".join(enc(n) for n in nm))
+            pend.append(("dropg", nm))
+    pf = reg.get("processing_filter")
+    if pf is not None:
+        for _ in range(ctx.n(40, 400)):
+            pat = rng.choice(["X", "XC", "C", "M", "XCMsf", "bX", "", "Xi", "sf"])
+            phs = [rng.choice(["X", "C", "M", "s", "f", "i", "b", "e", "XC"]) for _i in range(rng.randint(1, 10))]
+            lines.append(f"c01 pfilter {enc(pat) if pat else '%00'} " + ";".join(enc(p) for p in phs))
+            pend.append(("pf", pat, phs))
+
+    outs = ctx.driver.ask(lines)
+    try:
+        for item, o in zip(pend, outs):
+            if item[0] == "bw":
+                evs = item[1]
+                with _cl.redirect_stdout(_io.StringIO()):
+                    got, err = stage.run_stages([(bw["callback"], type(bw["context"])(), None)], evs)
+                ctx.count("bw_cases")
+                if err is not None:
+                    real = {"ZeroDivisionError": "err:zerodiv"}.get(err, "raises " + err)
+                    ctx.count("bw_zero_division", int(err == "ZeroDivisionError"))
+                    ctx.compare("CalcBw.drain vs real mp_calc_bw + MpCalcBwContext: exception", {"events": evs}, o, real)
+                    continue
+                real_tok, vals = [], []
+                for e in got:
+                    a = e.get("args")
+                    u = a.get("uid") if isinstance(a, dict) and "uid" in a else e.get("uid_top")
+                    if u is not None:
+                        real_tok.append(f"u{u}")
+                    else:
+                        real_tok.append(",".join(["c", str(e.get("name")).replace(" ", "_"), str(e.get("pid")), rat(e["ts"])]))
+                        vals.append(e["args"]["Unit GBps"])
+                mod_tok, mvals = [], []
+                for w in ([] if o == "%" else o.split(";")):
+                    if w.startswith("c,"):
+                        f = w.split(",")
+                        mod_tok.append(",".join(f[:4]))
+                        mvals.append(Fraction(f[4]))
+                    else:
+                        mod_tok.append(w)
+                ctx.count("bw_counters_generated", len(vals))
+                ctx.compare("CalcBw.drain vs real mp_calc_bw + MpCalcBwContext: events handed on by drain() (input events by uid "
+                            "back to front, synthesized counters with name, pid, ts)", {"events": evs}, mod_tok, real_tok)
+                if len(vals) == len(mvals):
+                    NPm = len({e["pid"] for e in evs})
+                    okv = all(abs(Fraction(rv) - mv) <= Fraction(1, 2000) * max(1, 2 * abs(NPm - 1)) + Fraction(1, 10**9)
+                              for rv, mv in zip(vals, mvals))
+                    ctx.compare("CalcBw: counter values are a rounding of the exact quotient to 3 decimals", {"events": evs},
+                                True, okv)
+            elif item[0] == "tid":
+                _, evs, cobj = item
+                with _cl.redirect_stdout(_io.StringIO()):
+                    got, err = stage.run_stages([(tm["callback"], cobj, None)], evs)
+                ctx.count("tidmap_cases")
+                ctx.count("tidmap_beyond_table", int(len(cobj.tid_original) > 30))
+                if err is not None:
+                    real = {"IndexError": "err:indexerror"}.get(err, "raises " + err)
+                else:
+                    real = (",".join(f"{e['args']['uid']}:{e['tid'] if 'tid' in e else '-'}" for e in got) or "%") + "|" + \
+                        (",".join(map(str, cobj.tid_original)) or "%") + "|" + (",".join(map(str, cobj.tid_remap)) or "%")
+                    # the clause of the statement the stage could break: nothing but the tid changes
+                    for a, b_ in zip(evs, got):
+                        if {k: v for k, v in a.items() if k != "tid"} != {k: v for k, v in b_.items() if k != "tid"}:
+                            ctx.compare("map_tid_to_range changes nothing but the tid", {"events": evs}, a, b_)
+                ctx.compare("Small.mapAll vs real map_tid_to_range + TIDMappingContext: new tids | tid_original | tid_remap",
+                            {"events": evs, "ctx": [len(cobj.tid_remap), cobj.remap_step]}, o, real)
+            elif item[0] == "dropg":
+                nm = item[1]
+                evs = [{"ph": "X", "pid": 0, "tid": 0, "ts": float(i), "dur": 1.0, "name": n, "args": {"uid": i}} for i, n in enumerate(nm)]
+                got, err = stage.run_stages([(dg["callback"], dg["context"], dg["kwargs"])], evs)
+                kept = {e["args"]["uid"] for e in got}
+                real = ",".join("1" if i in kept else "0" for i in range(len(nm))) if err is None else "raises " + err
+                ctx.count("dropg_names", len(nm))
+                ctx.compare("Small.isGlobal over Gen.glbNames vs real drop_global_events: kept (1) / removed (0) per name",
+                            {"names": nm}, o, real)
+            else:
+                _, pat, phs = item
+                evs = [{"ph": p, "pid": 0, "tid": 0, "ts": float(i), "dur": 1.0, "name": "n", "args": {"uid": i}} for i, p in enumerate(phs)]
+                got, err = stage.run_stages([(pf["callback"], pf["context"], {"filter_pattern": pat})], evs)
+                kept = {e["args"]["uid"] for e in got}
+                real = ",".join("1" if i in kept else "0" for i in range(len(phs))) if err is None else "raises " + err
+                ctx.count("pfilter_events", len(phs))
+                ctx.compare("Small.keepPh vs real processing_filter: kept (1) / removed (0) per event", {"pattern": pat, "ph": phs},
+                            o, real)
+    finally:
+        GlobalIngestData._jobmap.clear()
+        GlobalIngestData._jobmap.update(before)
+
+
 def spec_line(case, slices, globals_):
     ov = opt_view(case["opts"])
     uid_ix = {s["uid"]: i for i, s in enumerate(slices)}
@@ -432,6 +700,7 @@ def run(ctx: Ctx):
     if ctx.search_mode or not ctx.driver or not ctx.driver.ok:
         return
     export_args_correspondence(ctx)
+    small_stages_correspondence(ctx)
     outs = ctx.driver.ask(lines)
     pos = 0
     for kind, case, payload, n in pending:
